@@ -504,7 +504,7 @@ func TestVerifC01(t *testing.T) {
 		return
 	}
 
-	nSets := verifkit.Pick(260, 2600)
+	nSets := verifkit.Pick(700, 5000)
 	confsPerSet := verifkit.Pick(2, 5)
 	queriesPerConf := verifkit.Pick(28, 40)
 
